@@ -430,6 +430,77 @@ def callable_exception_objects(ctx):
                      "got: %s, __call__ invocations: %r" % (role, cls.__name__, " on an async callable" if is_async else "", got, calls))
 
 
+def inherited_error_identity(ctx):
+    """The `error` of a contract declared on a BASE member, violated through an overriding member of a DBC sub-class (depth 2
+    and 3, the override with and without a contract of its own): an exception instance is raised as that very object, a
+    bound-method factory is called once on its original owner, a class is instantiated. x role {require, ensure} x sync/async."""
+    import itertools
+    import icontract
+    from vf.progmodel.run import drive
+
+    for form, role, depth, own, is_async in itertools.product(("instance", "method", "class"), ("require", "ensure"), (2, 3),
+                                                              (False, True), (False, True)):
+        if own and role == "require":
+            continue  # with a falsy own group the error of the LAST group tried surfaces (C16), not the inherited one
+        made = []
+
+        class Owner:
+            def __init__(self):
+                self.calls = 0
+
+            def make(self):
+                self.calls += 1
+                e = KeyError("made by the owner")
+                made.append(e)
+                return e
+
+        owner = Owner()
+        inst = KeyError("the instance")
+        error = {"instance": inst, "method": owner.make, "class": KeyError}[form]
+
+        def bad(**kw):
+            return False
+
+        cond = (lambda x: False) if role == "require" else (lambda result: False)
+        A = "async " if is_async else ""
+        ns = {"icontract": icontract, "error": error}
+        exec("def cond(%s):\n    return False\ndef own_cond(result):\n    return True" % ("x" if role == "require" else "result"), ns)
+        src = ["class K0(icontract.DBC):",
+               "    @icontract.%s(cond, error=error)" % role,
+               "    %sdef m(self, x):" % A, "        return x"]
+        for lvl in range(1, depth):
+            src += ["class K%d(K%d):" % (lvl, lvl - 1)]
+            if own and lvl == depth - 1:
+                src += ["    @icontract.ensure(own_cond)"]
+            src += ["    %sdef m(self, x):" % A, "        return x"]
+        label = "%s(error=<%s>) on the base, violated through the override at depth %d%s%s" % (
+            role, form, depth, " (override with an own contract)" if own else "", ", async" if is_async else "")
+        try:
+            exec("\n".join(src), ns)
+            obj = ns["K%d" % (depth - 1)]()
+            try:
+                r = obj.m(1)
+                if is_async:
+                    r = drive(r)
+                got = "returned"
+            except KeyError as e:
+                if form == "instance":
+                    got = "ok" if e is inst else "raised a different KeyError object: %r" % (e,)
+                elif form == "method":
+                    got = "ok" if (owner.calls == 1 and len(made) == 1 and e is made[0]) else \
+                        "owner called %d times, made %d, raised made object: %s" % (owner.calls, len(made), bool(made) and e is made[0])
+                else:
+                    got = "ok" if type(e) is KeyError else "raised %r" % (e,)
+            except BaseException as e:  # noqa
+                got = "%s: %s" % (type(e).__name__, str(e)[:80])
+        except BaseException as e:  # noqa
+            got = "definition failed with %s: %s" % (type(e).__name__, e)
+        ctx.case(["inherited-error", form, role, depth, own, is_async], True, sample={"directed": label})
+        ctx.count("directed:inherited-error-identity")
+        if got != "ok":
+            ctx.fail("inherited-error|%s|%s" % (form, role), {"directed": "inherited-error"}, "%s: %s" % (label, got))
+
+
 class _Holder:
     def make(self):
         return ValueError("x")
@@ -482,6 +553,7 @@ def run(ctx, tier, seed, shard, nshards):
         run_invalid_kinds(ctx)
         run_method_owners(ctx)
         callable_exception_objects(ctx)
+        inherited_error_identity(ctx)
         ctx.exhaustive = True
         ctx.extra["exhaustive_scope"] = "the form x role x kind x sync/async matrix and the invalid-kind table"
     n = 200 if tier == "quick" else 1500
@@ -500,6 +572,8 @@ def replay(ctx, case):
         return run_cell(ctx, form, role, kind, is_async, trig)
     if "invalid" in case:
         return run_invalid_kinds(ctx)
+    if case.get("directed") == "inherited-error":
+        return inherited_error_identity(ctx)
     if case.get("directed") == "callable-exception":
         return callable_exception_objects(ctx)
     if "method_owner" in case:
